@@ -77,6 +77,89 @@ def _init(d, key):
     return d
 
 
+def cli_cache_runs(chk, r, tier):
+    """the same `mchap assemble` command line with --mcmc-llk-cache-threshold -1 and 0 (plus tempering and the other MCMC options no other
+    stream passes): what DenovoMCMC receives is recorded, every trace of the program is recomputed, and the two VCFs must be identical"""
+    import os
+    import shutil
+    import tempfile
+    from . import synth as S
+    import mchap.application.assemble as A
+    from mchap.assemble.likelihood import log_likelihood
+
+    work = tempfile.mkdtemp(prefix="verif-c09-")
+    orig = A.DenovoMCMC
+    try:
+        n_ds = {"quick": 1, "thorough": 4}[tier]
+        for d in range(n_ds):
+            ds = S.make_dataset(r, os.path.join(work, f"ds{d}"), n_samples=2, n_loci=3, ploidies=(4, 2), max_snvs=4, depth=(4, 10))
+            variants = [
+                (["--mcmc-temperatures", "0.3", "1.0", "--mcmc-fix-homozygous", "2.0"], (0.3, 1.0)),
+                (["--mcmc-temperatures", "0.1", "0.5", "1.0", "--mcmc-chains", "3", "--mcmc-burn", "0", "--mcmc-fix-homozygous", "0.9",
+                  "--mcmc-chain-incongruence-threshold", "0.7"], (0.1, 0.5, 1.0)),
+            ]
+            for v, (extra, temps) in enumerate(variants):
+                seed_ = str(r.randrange(1, 10 ** 6))
+                outs, fits = {}, {}
+                for thr in ("-1", "0"):
+                    rec = []
+
+                    class Rec(orig):
+                        def fit(self, reads, read_counts=None, initial=None, _rec=rec):
+                            tr = super().fit(reads, read_counts=read_counts, initial=initial)
+                            _rec.append((self, reads, read_counts, tr))
+                            return tr
+                    A.DenovoMCMC = Rec
+                    try:
+                        out, code, err = S.run_program(ds.assemble_argv("--mcmc-steps", "120", "--mcmc-burn", "40", "--mcmc-seed", seed_,
+                                                                        *extra, "--mcmc-llk-cache-threshold", thr))
+                    finally:
+                        A.DenovoMCMC = orig
+                    chk.count("cli:assemble-runs")
+                    if code != 0:
+                        chk.violation("mchap assemble aborted on a synthetic data set", {"dataset": d, "options": extra, "threshold": thr, "error": err[:500]},
+                                      "C09/cli/abort")
+                        continue
+                    outs[thr] = [l for l in out.split("\n") if not l.startswith("##commandline") and not l.startswith("##fileDate")]
+                    fits[thr] = rec
+                    for (m, reads, counts, tr) in rec:
+                        case = {"dataset": d, "options": extra, "threshold": thr}
+                        if int(m.llk_cache_threshold) != int(thr) or tuple(float(x) for x in np.sort(m.temperatures)) != temps:
+                            chk.violation("--mcmc-llk-cache-threshold / --mcmc-temperatures are not what DenovoMCMC receives",
+                                          {**case, "received_threshold": m.llk_cache_threshold, "received_temperatures": [float(x) for x in m.temperatures]},
+                                          "C09/cli/options-forwarded")
+                        if "--mcmc-chains" in extra and tr.genotypes.shape[0] != 3:
+                            chk.violation("--mcmc-chains is not the number of chains in the trace", {**case, "chains": int(tr.genotypes.shape[0])},
+                                          "C09/cli/options-forwarded")
+                        if m.fix_homozygous > 1 and reads.shape[1] > 0:
+                            chk.count("cli:fit-recomputed")
+                            done = False
+                            for c in range(tr.genotypes.shape[0]):
+                                for s_ in range(tr.genotypes.shape[1]):
+                                    fresh = float(log_likelihood(reads, tr.genotypes[c, s_], read_counts=counts))
+                                    if not C.close_log(float(tr.llks[c, s_]), fresh):
+                                        chk.violation("likelihood recorded in a trace of `mchap assemble` differs from the recomputed likelihood",
+                                                      {**case, "chain": c, "step": s_, "genotype": tr.genotypes[c, s_].tolist(),
+                                                       "carried": float(tr.llks[c, s_]), "recomputed": fresh}, "C09/assemble/trace-llk")
+                                        done = True
+                                        break
+                                if done:
+                                    break
+                chk.case(("cli-cache", d, v, seed_), True)
+                if len(outs) == 2:
+                    same_traces = len(fits["-1"]) == len(fits["0"]) and all(
+                        np.array_equal(a[3].genotypes, b[3].genotypes) for a, b in zip(fits["-1"], fits["0"]))
+                    if outs["-1"] != outs["0"] or not same_traces:
+                        k = next((i for i, (a, b) in enumerate(zip(outs["-1"], outs["0"])) if a != b), None)
+                        chk.violation("`mchap assemble` gives a different result with the likelihood cache disabled (-1) and always on (0) for one seed",
+                                      {"dataset": d, "options": extra, "seed": seed_, "traces_equal": bool(same_traces),
+                                       "first_differing_line": None if k is None else [outs["-1"][k][:300], outs["0"][k][:300]]},
+                                      "C09/cli/cache-changes-output")
+    finally:
+        A.DenovoMCMC = orig
+        shutil.rmtree(work, ignore_errors=True)
+
+
 def run(tier, replay=None):
     from mchap.assemble import arraymap
 
@@ -177,9 +260,14 @@ def run(tier, replay=None):
         truth = G.gen_genotype(r, ploidy, n_alleles, dup=0.3)
         reads, counts = G.gen_reads(r, n_alleles, r.randint(3, 8), haps=truth, gap=0.3, style="encoded")
         temps = (1.0,) if it % 3 == 2 else r.choice([(0.25, 0.6, 1.0), (0.1, 1.0), (0.5, 0.75, 0.9, 1.0)])
+        if it % 4 == 3:
+            counts = None          # read_counts=None: every row is one observation
+            chk.count("fit:read_counts=None")
+        n_chains = (2, 1, 3)[it % 3]
+        chk.count(f"fit:chains={n_chains}")
         traces = {}
         for thr in (-1, 0):
-            mod_ = DenovoMCMC(ploidy=ploidy, n_alleles=n_alleles, steps=150, chains=2, fix_homozygous=2.0, temperatures=temps,
+            mod_ = DenovoMCMC(ploidy=ploidy, n_alleles=n_alleles, steps=150, chains=n_chains, fix_homozygous=2.0, temperatures=temps,
                               random_seed=17 + it, llk_cache_threshold=thr, inbreeding=0.05)
             tr = mod_.fit(reads, read_counts=counts)
             traces[thr] = tr
@@ -199,17 +287,131 @@ def run(tier, replay=None):
             chk.violation("enabling the assemble likelihood cache changes the sampled trajectory for a fixed seed",
                           {"ploidy": ploidy, "n_alleles": n_alleles, "temperatures": temps, "first_differing_step": s}, "C09/assemble/cache-trajectory")
 
+    # ------------------------------------------------------------------ (ii-a2) jitted assemble sampler on a space large enough to flush its cache
+    from mchap.assemble import mcmc as amcmc
+    from mchap.assemble.likelihood import new_log_likelihood_cache
+    from mchap.jitutils import seed_numba
+    for it in range({"warm": 0, "quick": 1, "thorough": 4}[tier]):
+        ploidy, nb = (6, 14) if it % 2 == 0 else (4, 20)
+        n_alleles = [3] * nb
+        truth = G.gen_genotype(r, ploidy, n_alleles, dup=0.3)
+        reads, counts = G.gen_reads(r, n_alleles, 10, haps=truth, gap=0.4, style="encoded")
+        temps = np.array([0.1, 0.3, 0.6, 1.0])
+        steps = 700 if tier == "quick" else 1500
+        bd = amcmc._point_beta_probabilities(nb, 1.0, 3.0)
+        sd = r.randrange(1, 2 ** 31)
+        res = {}
+        for thr in (-1, 0):
+            seed_numba(sd); np.random.seed(sd)
+            res[thr] = amcmc._denovo_assembler(
+                genotype=np.array(truth, dtype=np.int8), inbreeding=0.05, reads=reads, read_counts=counts, n_alleles=np.array(n_alleles, dtype=np.int8),
+                steps=steps, break_dist=bd, recombination_step_probability=0.5, partial_dosage_step_probability=0.5, dosage_step_probability=1.0,
+                temperatures=temps, return_heated_trace=True, llk_cache_threshold=thr)
+        gt, lt = res[0]
+        # the cache holds at least every state of the trace: a replica filled with those keys alone tells whether it must have overflowed
+        keys = {gt[t, s_].tobytes() for t in range(gt.shape[0]) for s_ in range(gt.shape[1])}
+        rep = new_log_likelihood_cache(ploidy, nb, 3)
+        overflow = False
+        for k in sorted(keys):
+            rep = arraymap.set(rep, np.frombuffer(k, dtype=np.int8).astype(np.int64), -1.0, empty_if_full=True)
+            if rep[3] == 1 and rep[4] == 0:
+                overflow = True
+                break
+        chk.count("fit:jitted-large-space"); chk.count("fit:jitted-cache-certainly-flushed" if overflow else "fit:jitted-cache-maybe-not-flushed")
+        chk.case(("fit-flush", it, ploidy, nb, steps, len(keys)), overflow)
+        for thr in (-1, 0):
+            g_, l_ = res[thr]
+            stop = False
+            for t in range(g_.shape[0]):
+                for s_ in range(0, g_.shape[1], 1 if tier == "thorough" else 3):
+                    fresh = float(log_likelihood(reads, g_[t, s_], read_counts=counts))
+                    if not C.close_log(float(l_[t, s_]), fresh):
+                        chk.violation("likelihood recorded in the assemble trace differs from the recomputed likelihood of that genotype "
+                                      "(space large enough for the cache to overflow)",
+                                      {"cache": "on" if thr == 0 else "off", "chain": t, "step": s_, "genotype": g_[t, s_].tolist(),
+                                       "carried": float(l_[t, s_]), "recomputed": fresh, "temperatures": temps.tolist(), "seed": sd}, "C09/assemble/trace-llk")
+                        stop = True
+                        break
+                if stop:
+                    break
+        if not np.array_equal(res[-1][0], res[0][0]):
+            s_ = int(np.argmax(np.any(res[-1][0] != res[0][0], axis=(0, 2, 3))))
+            chk.violation("enabling the assemble likelihood cache changes the sampled trajectory for a fixed seed (cache overflowing)",
+                          {"ploidy": ploidy, "n_base": nb, "temperatures": temps.tolist(), "first_differing_step": s_, "seed": sd,
+                           "certainly_flushed": overflow}, "C09/assemble/cache-trajectory")
+
+    # ------------------------------------------------------------------ (ii-a3) jitted call sampler: cache on / off for one seed, trace llks recomputed
+    from mchap.calling import mcmc as cmcmc
+    from mchap.calling.classes import CallingMCMC
+    from mchap.calling.likelihood import log_likelihood_alleles as lla
+    for it in range({"warm": 1, "quick": 8, "thorough": 60}[tier]):
+        shape = it % 4
+        ploidy = (2, 4, 10, 6)[shape]
+        n_haps = (4, 8, 6, 300)[shape]
+        nb = 10 if n_haps > 32 else r.randint(2, 4)
+        seen, haps = set(), []
+        for _ in range(n_haps * 20):
+            h = tuple(r.randrange(2) for _ in range(nb))
+            if h not in seen:
+                seen.add(h); haps.append(h)
+            if len(haps) == n_haps:
+                break
+        harr = np.array(haps, dtype=np.int8); n_haps = len(haps)
+        truth = [list(r.choice(haps)) for _ in range(ploidy)]
+        reads, counts = G.gen_reads(r, [2] * nb, r.randint(2, 8), haps=truth, gap=0.2, style="encoded")
+        if it % 5 == 4:
+            counts = None
+            chk.count("call-sampler:read_counts=None")
+        F = r.choice([0.0, 0.1, 0.5])
+        freqs = None if it % 2 == 0 else np.array([r.random() + 0.05 for _ in range(n_haps)])
+        if freqs is not None:
+            freqs = freqs / freqs.sum()
+        g0 = np.array(sorted(r.randrange(n_haps) for _ in range(ploidy)), dtype=np.int64)
+        for st in (0, 1):
+            sd = r.randrange(1, 2 ** 31)
+            out_ = {}
+            try:
+                for cache in (False, True):
+                    seed_numba(sd); np.random.seed(sd)
+                    out_[cache] = cmcmc.mcmc_sampler(g0, harr, reads, counts, F, frequencies=freqs, n_steps=60, cache=cache, step_type=st)
+                # the application class (cache always on), same seed and initial state: chain 0 is the same stream
+                fit = CallingMCMC(ploidy=ploidy, haplotypes=harr, frequencies=freqs, inbreeding=F, steps=60, chains=2, random_seed=sd,
+                                  step_type="Gibbs" if st == 0 else "Metropolis-Hastings").fit(reads, read_counts=counts, initial=g0)
+            except Exception as e:   # noqa: BLE001
+                chk.violation(f"the call sampler raised {type(e).__name__} on a valid input", {"ploidy": ploidy, "n_haplotypes": n_haps, "step_type": st,
+                              "read_counts": None if counts is None else counts.tolist(), "error": repr(e)[:300]}, "C09/calling/raises")
+                continue
+            chk.count(f"call-sampler:jitted step_type={st}")
+            chk.case(("call-sampler", it, st, ploidy, n_haps), ploidy >= 9 or n_haps > 256)
+            case = {"ploidy": ploidy, "n_haplotypes": n_haps, "step_type": st, "inbreeding": F, "seed": sd, "initial": g0.tolist(),
+                    "frequencies": None if freqs is None else "random", "read_counts": None if counts is None else counts.tolist()}
+            streams = [("cache=False", out_[False][0], out_[False][1]), ("cache=True", out_[True][0], out_[True][1])] + \
+                      [(f"CallingMCMC.fit chain {c}", fit.genotypes[c], fit.llks[c]) for c in range(fit.genotypes.shape[0])]
+            for name, g_, l_ in streams:
+                for s_ in range(len(g_)):
+                    fresh = float(lla(reads, counts, harr, np.asarray(g_[s_], dtype=np.int64)))
+                    if not C.close_log(float(l_[s_]), fresh):
+                        chk.violation("likelihood recorded in the call-sampler trace differs from the recomputed likelihood of that genotype",
+                                      {**case, "run": name, "step": s_, "alleles": np.asarray(g_[s_]).tolist(), "carried": float(l_[s_]),
+                                       "recomputed": fresh}, "C09/calling/trace-llk")
+                        break
+            if not np.array_equal(out_[False][0], out_[True][0]) or not np.array_equal(out_[False][0], fit.genotypes[0]):
+                chk.violation("the trajectory of the call sampler depends on whether its likelihood cache is in use (one seed, one initial state)",
+                              {**case, "cache_off_vs_on_equal": bool(np.array_equal(out_[False][0], out_[True][0])),
+                               "cache_off_vs_CallingMCMC_equal": bool(np.array_equal(out_[False][0], fit.genotypes[0]))}, "C09/calling/cache-trajectory")
+
     # ------------------------------------------------------------------ (ii-b) dict caches of the call / call-pedigree wrappers over whole genotype spaces
     import itertools
     from numba import types
     from numba.typed import Dict as NDict
     from mchap.calling.likelihood import log_likelihood_alleles_cached as call_cached, log_likelihood_alleles
     from mchap.pedigree.likelihood import log_likelihood_alleles_cached as ped_cached
-    spaces = [(10, 3), (12, 2), (9, 4), (4, 5), (5, 300), (6, 260), (2, 1000)]
+    # (8, 400): genotype indices beyond 2^53; (8, 870): just below 2^63; (8, 1000): beyond 2^63 (the int64 index wraps)
+    spaces = [(10, 3), (12, 2), (9, 4), (4, 5), (5, 300), (6, 260), (2, 1000), (8, 400), (8, 870), (8, 1000)]
     if tier == "warm":
         spaces = [(4, 3)]
     for (ploidy, n_haps) in spaces:
-        nb = 10 if n_haps > 32 else 3
+        nb = 12 if n_haps > 512 else 10 if n_haps > 32 else 3
         seen, haps = set(), []
         for _ in range(n_haps * 20):
             h = tuple(r.randrange(2) for _ in range(nb))
@@ -242,6 +444,8 @@ def run(tier, replay=None):
                     bad = (g, v1, v2, fresh[g], rnd)
             r.shuffle(order)
         chk.count("dict-cache-space")
+        top = math.comb(n_haps + ploidy - 1, ploidy)
+        chk.count("dict-cache-space:index>=2^63" if top >= 2 ** 63 else "dict-cache-space:index>=2^53" if top >= 2 ** 53 else "dict-cache-space:index<2^53")
         chk.case(("dict-cache", ploidy, n_haps, len(genos)), ploidy >= 9 or n_haps > 256)
         if bad is not None:
             chk.violation("a likelihood served from the call / call-pedigree genotype cache differs from the freshly computed likelihood",
@@ -250,16 +454,17 @@ def run(tier, replay=None):
 
     # ------------------------------------------------------------------ (ii-c) one pedigree cache shared by samples of different ploidy
     for trial in range({"warm": 1, "quick": 6, "thorough": 40}[tier]):
-        n_haps = r.choice([3, 4, 5]); nb = 3
+        big = trial % 3 == 1          # 300 haplotypes x 3 samples: large genotype indices under several sample indices
+        n_haps = 300 if big else r.choice([3, 4, 5]); nb = 10 if big else 3
         seen, haps = set(), []
-        for _ in range(60):
+        for _ in range(60 if not big else 6000):
             h = tuple(r.randrange(2) for _ in range(nb))
             if h not in seen:
                 seen.add(h); haps.append(h)
             if len(haps) == n_haps:
                 break
         harr = np.array(haps, dtype=np.int8); n_haps = len(haps)
-        ploidies = [r.choice([2, 3, 4, 6]) for _ in range(r.randint(3, 5))]
+        ploidies = [r.choice([2, 3, 4, 6]) for _ in range(r.randint(3, 5))] if not big else r.sample([2, 4, 6, 8], 3)
         if trial % 2 == 0:
             ploidies.sort(reverse=True)
         per_sample = [G.gen_reads(r, [2] * nb, r.randint(1, 6), haps=[list(haps[0]), list(haps[-1])], gap=0.1, style="encoded") for _ in ploidies]
@@ -267,7 +472,15 @@ def run(tier, replay=None):
         if pc is None:
             chk.count("ped-shared-cache:key-type-unknown")
             break
-        todo = [(s_, g) for s_, pl in enumerate(ploidies) for g in itertools.combinations_with_replacement(range(n_haps), pl)]
+        if big:
+            todo = sorted({(s_, tuple(sorted(r.randrange(n_haps) for _ in range(pl)))) for s_, pl in enumerate(ploidies) for _ in range(150)}
+                          | {(s_, tuple(sorted([r.randrange(n_haps)] + [r.randrange(n_haps - 3, n_haps) for _ in range(pl - 1)])))
+                             for s_, pl in enumerate(ploidies) for _ in range(80)})
+            # the same genotype index under every sample index of that ploidy class is the interesting collision: equal ploidies share genotypes
+            todo += [(s2, g) for (s1, g) in list(todo)[:200] for s2, pl2 in enumerate(ploidies) if pl2 == len(g) and s2 != s1]
+            chk.count("ped-shared-cache:300-haplotypes")
+        else:
+            todo = [(s_, g) for s_, pl in enumerate(ploidies) for g in itertools.combinations_with_replacement(range(n_haps), pl)]
         bad = None
         for rnd in range(2):
             r.shuffle(todo)
@@ -283,6 +496,104 @@ def run(tier, replay=None):
         if bad is not None:
             chk.violation("the pedigree likelihood cache serves one sample the likelihood of another sample / genotype "
                           "(one cache shared by samples of different ploidy)", bad, "C09/pedigree/shared-cache-served-value")
+
+    # ------------------------------------------------------------------ (ii-d) jitted pedigree allele updates on a caller-supplied cache, audited
+    # mixed-ploidy family, samples without reads, read rows permuted (zero-count rows before positive-count rows)
+    from mchap.pedigree import mcmc as pmcmc
+    from mchap.jitutils import index_as_genotype_alleles
+    base_tau = {"T": (2, 2), "D": (1, 1), "C": (2, 1), "E": (1, 1), "K": (1, 1)}
+    base_par = {"T": (None, None), "D": (None, None), "C": ("T", "D"), "E": (None, None), "K": ("D", "E")}
+    for trial in range({"warm": 1, "quick": 6, "thorough": 50}[tier]):
+        nb = r.randint(1, 3); n_alleles = [2] * nb
+        haps = []
+        for _ in range(30):
+            h = G.gen_haplotype(r, n_alleles)
+            if h not in haps:
+                haps.append(h)
+            if len(haps) == 4:
+                break
+        if len(haps) < 2:
+            continue
+        harr = np.array(haps, dtype=np.int8); n = len(haps)
+        names = list(base_tau); r.shuffle(names)
+        pos = {nm: i for i, nm in enumerate(names)}
+        N = len(names)
+        tau = np.array([base_tau[nm] for nm in names], dtype=np.int64)
+        pl = tau.sum(axis=1); mp = int(pl.max())
+        par = np.array([[-1 if q is None else pos[q] for q in base_par[nm]] for nm in names], dtype=np.int64)
+        n_reads = [r.choice([0, 1, 2, 3, 4, 5, 6]) for _ in range(N)]
+        R = max(1, max(n_reads) + r.randint(0, 2))
+        dists = np.full((N, R, nb, 2), np.nan); cnts = np.zeros((N, R), dtype=np.int64)
+        geno = np.full((N, mp), -2, dtype=np.int64)
+        interleaved = 0
+        for s_ in range(N):
+            geno[s_, :pl[s_]] = [r.randrange(n) for _ in range(pl[s_])]
+            rd, ct = G.gen_reads(r, n_alleles, n_reads[s_], haps=[haps[a] for a in geno[s_, :pl[s_]]], gap=0.0, style="encoded")
+            dists[s_, :n_reads[s_]] = rd; cnts[s_, :n_reads[s_]] = ct
+            for k in range(R):
+                if cnts[s_, k] == 0 and r.random() < 0.5:     # a legal read observed 0 times
+                    dists[s_, k] = G.gen_reads(r, n_alleles, 1, haps=None, gap=0.0, style="encoded")[0][0]
+            perm = list(range(R)); r.shuffle(perm)
+            dists[s_] = dists[s_][perm].copy(); cnts[s_] = cnts[s_][perm].copy()
+            p_ = np.where(cnts[s_] > 0)[0]
+            interleaved += int(len(p_) > 0 and bool((cnts[s_, :p_[-1]] == 0).any()))
+        cache = ped_cache_factory(ped_cached, dists[0], cnts[0], harr)
+        if cache is None:
+            chk.count("ped-updates:key-type-unknown")
+            break
+        children = pmcmc.sample_children_matrix(par)
+        lam = np.zeros((N, 2)); err = np.full((N, 2), 0.05); logf = np.log(np.full(n, 1.0 / n))
+        z = lambda: np.zeros(mp, dtype=np.int64)
+        case = {"order": names, "ploidies": [int(x) for x in pl], "n_reads": n_reads, "read_counts": cnts.tolist(), "haplotypes": haps,
+                "genotypes": geno.tolist()}
+        failed = None
+        for fn_name in ("gibbs_probabilities", "metropolis_hastings_probabilities"):
+            fn = getattr(pmcmc, fn_name)
+            for s_ in range(N):
+                for a_ in range(int(pl[s_])):
+                    try:
+                        fn(s_, a_, geno, pl, par, children, tau, lam, err, dists, cnts, harr, logf, cache, z(), z(), z(), z(), z(), z(), z(), np.zeros(mp))
+                    except Exception as e:    # noqa: BLE001
+                        failed = (fn_name, s_, a_, repr(e)[:300])
+                        break
+                if failed:
+                    break
+            if failed:
+                break
+        chk.count("ped-updates:jitted"); chk.count(f"ped-updates:samples-with-interleaved-rows={min(interleaved, 3)}{'+' if interleaved > 3 else ''}")
+        if 0 in n_reads:
+            chk.count("ped-updates:sample-without-reads")
+        chk.case(("ped-updates", trial, tuple(names), tuple(n_reads)), interleaved > 0)
+        if failed:
+            chk.violation(f"pedigree {failed[0]} raised on a valid family", {**case, "target": failed[1], "allele_index": failed[2], "error": failed[3]},
+                          "C09/pedigree/updates-raise")
+            continue
+        n_entries = 0
+        for key, v in cache.items():
+            if not (isinstance(key, tuple) and len(key) == 2):
+                chk.count("ped-updates:flat-key(entries not decoded)")
+                break
+            s_, gi = int(key[0]), int(key[1])
+            if s_ < 0:
+                continue
+            n_entries += 1
+            al = index_as_genotype_alleles(gi, int(pl[s_]))
+            idx = cnts[s_] > 0
+            fresh = float(log_likelihood(dists[s_][idx], harr[al], read_counts=cnts[s_][idx]))
+            if not C.close_log(float(v), fresh):
+                p_ = np.where(cnts[s_] > 0)[0]
+                rows = bool(len(p_) > 0 and (cnts[s_, :p_[-1]] == 0).any())
+                chk.violation("after Gibbs / MH allele updates the pedigree likelihood cache holds, under (sample, genotype), a value that is not the "
+                              "likelihood of that genotype given that sample's positive-count reads",
+                              {**case, "sample": s_, "alleles": al.tolist(), "cached": float(v), "fresh": fresh,
+                               "zero_count_row_before_a_positive_one": rows},
+                              "C09/pedigree/served-value-read-rows" if rows else "C09/pedigree/update-cache-entry")
+                break
+        chk.extra.setdefault("ped_update_entries", []).append(n_entries)
+
+    # ------------------------------------------------------------------ (iv) `mchap assemble` with the cache disabled (-1) / always on (0), tempered
+    if tier != "warm":
+        cli_cache_runs(chk, r, tier)
 
     # ------------------------------------------------------------------ (iii) monitored plain-Python runs
     scale = {"warm": 0.4, "quick": 1.0, "thorough": 6.0}[tier]
@@ -301,7 +612,11 @@ def run(tier, replay=None):
     chk.extra["nojit_assemble"] = res["assemble"][:6]
     for b in res["bad"]:
         where = b["where"]
-        if "mixed ploidy" in where:
+        if b.get("zero_count_row_before_a_positive_one") and where.startswith("pedigree/served-value"):
+            chk.violation("the pedigree sampler is served / caches a likelihood that is not the likelihood of that sample's positive-count reads "
+                          "(a sample whose zero-count read rows are not all at the tail of its row of the read array)", b,
+                          "C09/pedigree/served-value-read-rows")
+        elif "mixed ploidy" in where:
             chk.violation("the pedigree sampler is served a likelihood that is not the likelihood of that sample's genotype and own reads "
                           "(pedigree with individuals of different ploidy sharing the cache)", b, "C09/pedigree/served-value-mixed-ploidy")
         elif where.startswith("pedigree/swap-cache-entry") or where.startswith("pedigree/served-value"):
